@@ -1,6 +1,7 @@
 mod alloc;
 mod app;
 mod caps;
+mod det;
 mod drive;
 mod dsl;
 mod legacy;
@@ -85,6 +86,24 @@ fn main() {
             }
             serde_json::to_writer(&mut w, &serde_json::json!({"summary":true,"executions":n,"bad":bad,"known":known})).unwrap();
             w.write_all(b"\n").unwrap();
+            w.flush().unwrap();
+        }
+        Some("det") => {
+            // det <histories.ndjson> <out.ndjson> <repeats>
+            let inp = std::fs::File::open(&args[2]).expect("open histories");
+            let out = std::fs::File::create(&args[3]).expect("create out");
+            let reps: usize = args.get(4).and_then(|s| s.parse().ok()).unwrap_or(2);
+            let mut w = BufWriter::new(out);
+            for line in std::io::BufReader::new(inp).lines() {
+                let line = line.unwrap();
+                if line.trim().is_empty() {
+                    continue;
+                }
+                let steps: Vec<det::DStep> = serde_json::from_str(&line).expect("bad history");
+                let runs: Vec<serde_json::Value> = (0..reps).map(|_| det::replay(&steps)).collect();
+                serde_json::to_writer(&mut w, &serde_json::json!({"runs": runs})).unwrap();
+                w.write_all(b"\n").unwrap();
+            }
             w.flush().unwrap();
         }
         Some("mt") => {
